@@ -53,6 +53,8 @@ FINGERPRINTS = [
                                    "_check_header_with_parser", "_load_config"]),
     (CORE, ["lint_files_parallel", "_collect_cross_file_evidence", "_execute_parallel_linting", "lint_directory_parallel", "_path_inside_project"]),
     ("src/cli/utils.py", ["_infer_root_from_config", "_determine_project_root_for_context", "get_project_root_from_context"]),
+    (L + "dry/inline_ignore.py", ["InlineIgnoreParser"]),
+    (L + "dry/violation_generator.py", ["_filter_inline_ignored"]),
 ]
 
 
@@ -141,10 +143,13 @@ def excluded_shape():
 
 # ---------------------------------------------------------------- repo-level ignore
 def repo_ignore_shape():
-    _shape(IGN, "IgnoreDirectiveParser", "is_ignored", {
-        "path_str = str(file_path)\nwith suppress(KeyError):\n    return self._ignore_cache[path_str]\n"
-        "try:\n    check_path = str(file_path.relative_to(self.project_root))\nexcept ValueError:\n    check_path = path_str\n"
-        "result = any((matches_pattern(check_path, p) for p in self.repo_patterns))\nself._ignore_cache[path_str] = result\nreturn result": 1})
+    head = "path_str = str(file_path)\nwith suppress(KeyError):\n    return self._ignore_cache[path_str]\n"
+    tail = "result = any((matches_pattern(check_path, p) for p in self.repo_patterns))\nself._ignore_cache[path_str] = result\nreturn result"
+    resolves = _shape(IGN, "IgnoreDirectiveParser", "is_ignored", {
+        head + "try:\n    check_path = str(file_path.relative_to(self.project_root))\nexcept ValueError:\n    check_path = path_str\n" + tail: "false",
+        # shape of proposed_fixes/C09-ignore-reroot-relative.diff: relative spellings are resolved before they are re-rooted
+        head + "try:\n    check_path = str(file_path.resolve().relative_to(self.project_root.resolve()))\n"
+               "except (ValueError, OSError):\n    check_path = path_str\n" + tail: "true"})
     # after fix bbae54e: .thailintignore patterns, then the `ignore:` list of the first existing config file
     mm = _shape_re(IGN, None, "_load_repo_ignores",
                    r"patterns: list\[str\] = \[\]\nthailintignore = project_root / ('[^']*')\nif thailintignore\.exists\(\):\n"
@@ -176,6 +181,7 @@ def repo_ignore_shape():
             + defn("repo_ignore_config_file_json", "string", coq_string(ast.literal_eval(mm.group(3))))
             + defn("repo_ignore_config_key", "string", coq_string(ast.literal_eval(m2.group(1))))
             + defn("repo_ignore_relative_to_root_with_fallback", "bool", "true")
+            + defn("repo_ignore_resolves_before_reroot", "bool", resolves)
             + defn("ignore_parser_default_root_is_cwd", "bool", cwd_default))
 
 
@@ -431,6 +437,57 @@ def other_ignore_kinds():
     return defn("unmodelled_pipeline_ignore_kinds", "list (string * string)", '[("cqs", "fnmatch(str(path), pattern)")]')
 
 
+# ---------------------------------------------------------------- stores keyed by a path string (suppression directives)
+def directive_stores():
+    """DRY keeps the `# dry: ignore-block` ranges and the file contents (for thailint directives) in dictionaries keyed by a path string
+    and looks them up with the path string of the violation; both sides must spell the path the same way, whatever the target spelling.
+    The item reads the key expression of every side (as given / resolved); the Coq lemma `directive_stores_agree` needs them equal."""
+    DI = L + "dry/inline_ignore.py"
+    tail_store = "lines = content.split('\\n')\nranges = self._extract_ignore_ranges(lines)\nif ranges:\n    self._ignore_ranges[%s] = ranges"
+    store = _shape(DI, "InlineIgnoreParser", "parse_file", {
+        tail_store % "str(file_path)": "ScGivenStr", tail_store % "str(file_path.resolve())": "ScResolvedStr"})
+    tail_look = ("ranges = self._ignore_ranges.get(%s, [])\nif not ranges:\n    return False\nif end_line is not None:\n"
+                 "    return self._check_range_overlap(line, end_line, ranges)\nreturn self._check_single_line(line, ranges)")
+    look = _shape(DI, "InlineIgnoreParser", "should_ignore", {
+        tail_look % "str(Path(file_path))": "ScGivenStr", tail_look % "str(Path(file_path).resolve())": "ScResolvedStr"})
+    # DRYRule._process_file hands the path of the context on unchanged and keeps the content under str(path); the violations carry
+    # str(block.file_path); the shared directive filter looks the content up under violation.file_path
+    pf = _body(_fn(L + "dry/linter.py", "DRYRule", "_process_file"))
+    if "file_path = context.file_path\n" not in pf or "self._helpers.inline_ignore.parse_file(file_path, context.file_content)" not in pf:
+        raise Unsupported("dry: _process_file no longer hands context.file_path to the inline-ignore parser")
+    if "self._file_contents[str(file_path)] = context.file_content" in pf:
+        cstore = "ScGivenStr"
+    elif "self._file_contents[str(file_path.resolve())] = context.file_content" in pf:
+        cstore = "ScResolvedStr"
+    else:
+        raise Unsupported("dry: _process_file no longer stores the file content under a modelled key")
+    fs = _body(_fn(L + "dry/violation_generator.py", "ViolationGenerator", "_filter_shared_ignored"))
+    if "file_content = file_contents.get(violation.file_path, '')" in fs:
+        clook = "ScGivenStr"
+    elif "file_content = file_contents.get(str(Path(violation.file_path).resolve()), '')" in fs:
+        clook = "ScResolvedStr"
+    else:
+        raise Unsupported("dry: _filter_shared_ignored no longer looks the content up under a modelled key")
+    fi = _body(_fn(L + "dry/violation_generator.py", "ViolationGenerator", "_filter_inline_ignored"))
+    if "if not inline_ignore.should_ignore(violation.file_path, start_line, end_line):" not in fi:
+        raise Unsupported("dry: _filter_inline_ignored no longer asks with violation.file_path")
+    vb = ast.unparse(parse(L + "dry/violation_builder.py"))
+    if vb.count("file_path=str(block.file_path)") != 1:
+        raise Unsupported("dry: violations no longer carry str(block.file_path)")
+    # stringly-typed: the directive filter reads the file again under the violation's own path string (no second spelling involved)
+    ST = L + "stringly_typed/ignore_checker.py"
+    _shape(ST, "IgnoreChecker", "_should_ignore", {
+        "file_content = self._get_file_content(violation.file_path)\nreturn self._ignore_parser.should_ignore_violation(violation, file_content)": 1})
+    _shape(ST, "IgnoreChecker", "_get_file_content", {
+        "with suppress(KeyError):\n    return self._file_content_cache[file_path]\ncontent = self._read_file_content(file_path)\n"
+        "self._file_content_cache[file_path] = content\nreturn content": 1})
+    _shape(ST, "IgnoreChecker", "_read_file_content", {
+        "try:\n    return Path(file_path).read_text(encoding='utf-8')\nexcept (OSError, UnicodeDecodeError):\n    return ''": 1})
+    return (defn("dry_inline_store_key", "pscope", store) + defn("dry_inline_lookup_key", "pscope", look)
+            + defn("dry_content_store_key", "pscope", cstore) + defn("dry_content_lookup_key", "pscope", clook)
+            + defn("stringly_directive_content_read_from_violation_path", "bool", "true"))
+
+
 ITEMS = [
     ("excluded_tables", excluded_tables),
     ("excluded_shape", excluded_shape),
@@ -438,6 +495,7 @@ ITEMS = [
     ("root_markers", root_markers),
     ("command_sigs", command_sigs),
     ("other_ignore_kinds", other_ignore_kinds),
+    ("directive_stores", directive_stores),
 ]
 
 
